@@ -94,6 +94,11 @@ def run(res):
     specs = [dict(seed=res.seed, idx=i, max_patches=(16 if quick else 30)) for i in range(12 if quick else 240)]
     for r in fw.run_parallel(scene_case, specs):
         res.absorb(r)
+    # the same law in the Kang engine (RadiosityKang / PatchesKang): scene cases of C19 -- all orders and
+    # the receiver response against the model, plus their independent oracles
+    import props.C19 as C19
+    for r in fw.run_parallel(C19.scene_case, [dict(seed=res.seed + 6, idx=i, quick=True) for i in range(16 if quick else 160)]):
+        res.absorb(r)
     res.rule = ("shoebox scenes with 2-6 bands, band-dependent absorption / random tables / attenuation; the "
                 "multi-band run is compared with the model and, band by band (up to 3 bands per scene), with "
                 "single-band objects carrying only that band; non-trivial = the bands actually differ")
@@ -104,4 +109,7 @@ def run(res):
 def replay(res, payload):
     for f in payload.get("failures", []) + payload.get("correspondence", []):
         case = f.get("case", {})
+        import props.C19 as C19
+        if C19.replay_case(res, case):
+            continue
         res.absorb(scene_case(dict(seed=case["seed"], idx=case["idx"], max_patches=30)))
